@@ -19,6 +19,7 @@ import (
 	"net/http/httptest"
 	"os"
 	"path/filepath"
+	"runtime"
 	"strconv"
 	"strings"
 	"sync"
@@ -102,7 +103,42 @@ func TestVerifC20(t *testing.T) {
 	}
 }
 
+// serial-job assumption of the access table: instances of one background job never overlap
+var verifC20Active, verifC20Max [4]int32
+
+// installed before any test starts a manager (background jobs of earlier tests outlive them)
+func init() {
+	if os.Getenv("VERIF_C20") != "" {
+		VerifGate = verifC20Gate
+	}
+}
+
+func verifC20Gate(point string) {
+	job, ev, _ := strings.Cut(point, ".")
+	k, ok := map[string]int{"import": 0, "merge": 1, "tag": 2, "convert": 3}[job]
+	if !ok {
+		return
+	}
+	if ev == "start" {
+		n := atomic.AddInt32(&verifC20Active[k], 1)
+		for {
+			m := atomic.LoadInt32(&verifC20Max[k])
+			if n <= m || atomic.CompareAndSwapInt32(&verifC20Max[k], m, n) {
+				break
+			}
+		}
+	} else if ev == "done" {
+		atomic.AddInt32(&verifC20Active[k], -1)
+	}
+}
+
 func verifC20Round(t *testing.T, seed int64, workers, ops int) {
+	atoi := func(k string, d int) int {
+		if v, err := strconv.Atoi(os.Getenv(k)); err == nil {
+			return v
+		}
+		return d
+	}
 	base := t.TempDir()
 	d := map[string]string{}
 	for _, n := range []string{"pcap", "index", "snapshot", "state", "converter", "watch"} {
@@ -114,29 +150,20 @@ func verifC20Round(t *testing.T, seed int64, workers, ops int) {
 	_ = os.WriteFile(filepath.Join(d["converter"], "conv_ok"), []byte(verifC20Converter), 0775)
 	_ = os.WriteFile(filepath.Join(d["converter"], "conv_bad"), []byte("#!/bin/sh\necho oops >&2\nexit 3\n"), 0775)
 
-	// serial-job assumption of the access table
-	var active [4]int32
-	var maxActive [4]int32
-	kinds := map[string]int{"import": 0, "merge": 1, "tag": 2, "convert": 3, "updateTag": 2, "converter": 3, "convertStream": 3, "mergeIndexes": 1, "importPcap": 0}
-	VerifGate = func(point string) {
-		job, ev, _ := strings.Cut(point, ".")
-		k, ok := kinds[job]
-		if !ok {
-			return
+	// leftovers of the previous round (Close does not wait for background jobs)
+	for i := 0; i < 2000; i++ {
+		busy := false
+		for k := range verifC20Active {
+			busy = busy || atomic.LoadInt32(&verifC20Active[k]) != 0
 		}
-		if ev == "start" {
-			n := atomic.AddInt32(&active[k], 1)
-			for {
-				m := atomic.LoadInt32(&maxActive[k])
-				if n <= m || atomic.CompareAndSwapInt32(&maxActive[k], m, n) {
-					break
-				}
-			}
-		} else if ev == "done" {
-			atomic.AddInt32(&active[k], -1)
+		if !busy {
+			break
 		}
+		time.Sleep(5 * time.Millisecond)
 	}
-	defer func() { VerifGate = nil }()
+	for k := range verifC20Max {
+		atomic.StoreInt32(&verifC20Max[k], 0)
+	}
 
 	mgr, err := New(d["pcap"], d["index"], d["snapshot"], d["state"], d["converter"], d["watch"])
 	if err != nil {
@@ -302,7 +329,30 @@ func verifC20Round(t *testing.T, seed int64, workers, ops int) {
 			}
 		}(w)
 	}
-	wg.Wait()
+	// watchdog: a converter that never answers blocks StreamContext.Data forever (no timeout in
+	// Converter.Data); that is a liveness matter (C09), not a race: report and stop the process
+	// so that the race reports collected so far are kept
+	done := make(chan struct{})
+	go func() { wg.Wait(); close(done) }()
+	limit := time.Duration(atoi("VERIF_C20_ROUND_LIMIT", 90)) * time.Second
+	select {
+	case <-done:
+	case <-time.After(limit):
+		fmt.Printf("VERIF-C20 HANG workers did not finish within %v (seed %d)\n", limit, seed)
+		buf := make([]byte, 1<<20)
+		n := runtime.Stack(buf, true)
+		for _, g := range strings.Split(string(buf[:n]), "\n\n") {
+			if strings.Contains(g, "verifC20Round.func") && !strings.Contains(g, "runtime.Stack") {
+				l := strings.Split(g, "\n")
+				if len(l) > 12 {
+					l = l[:12]
+				}
+				fmt.Printf("VERIF-C20 HANG-STACK %s\n", strings.Join(l, " | "))
+			}
+		}
+		os.Stdout.Sync()
+		os.Exit(3)
+	}
 	// quiescence, bounded
 	deadline := time.Now().Add(20 * time.Second)
 	for time.Now().Before(deadline) {
@@ -318,9 +368,9 @@ func verifC20Round(t *testing.T, seed int64, workers, ops int) {
 	mgr.Close()
 	srvWG.Wait()
 	for k, name := range []string{"import", "merge", "tagging", "converter"} {
-		fmt.Printf("VERIF-C20 max concurrent %s jobs: %d\n", name, atomic.LoadInt32(&maxActive[k]))
-		if atomic.LoadInt32(&maxActive[k]) > 1 {
-			t.Errorf("VERIF-C20 SERIAL-VIOLATED %s jobs ran concurrently (%d)", name, maxActive[k])
+		fmt.Printf("VERIF-C20 max concurrent %s jobs: %d\n", name, atomic.LoadInt32(&verifC20Max[k]))
+		if atomic.LoadInt32(&verifC20Max[k]) > 1 {
+			t.Errorf("VERIF-C20 SERIAL-VIOLATED %s jobs ran concurrently (%d)", name, verifC20Max[k])
 		}
 	}
 }
